@@ -167,6 +167,130 @@ def examine_network(ctx, case, rng):
             ctx.violation('C06:wrong-element-impedance', f'seen by {b["id"]!r}: {got}, exact {complex(want)}', rep)
 
 
+def component_port_impedance(case, a, b):
+    """exact driving-point impedance on the deactivated network after dropping open branches, restricted to the connected component of a:
+    -> CQ value | 'inf' (b is not connected to a) | None (undefined inside the component).  Nodes that hang on open branches only (isolated
+    once the sources are deactivated) do not matter to the port."""
+    if a == b:
+        return CQ(0)
+    z = zeroed(case)
+    live = [x for x in z['branches'] if x['ctor'] != 'open_circuit']
+    comp, grew = {a}, True
+    while grew:
+        grew = False
+        for x in live:
+            if (x['n1'] in comp) != (x['n2'] in comp):
+                comp |= {x['n1'], x['n2']}
+                grew = True
+    if b not in comp:
+        return 'inf'
+    sub = {'zero': b, 'branches': [x for x in live if x['n1'] in comp and x['n2'] in comp]}
+    sub['branches'].append({'id': '\x00probe', 'n1': b, 'n2': a, 'ctor': 'current_source', 'args': [[1.0, 0.0], [0.0, 0.0]]})
+    sol = spec_solution(sub)
+    if sol is None:
+        return None
+    return sol['phi'][a] - sol['phi'][b]
+
+
+ISO_CORE = ['1', '5', 'B', 'b', 'n2', 'm']
+ISO_EXTRA = ['0', '#', '2', '9', 'A', 'a', 'zz', '~', 'n1', 'n3']      # sort before, between and after the core labels
+
+
+def isolated_node_network(rng):
+    """a connected passive core plus nodes that hang on open branches / ideal current sources only; the reference node may be one of them"""
+    core = rng.sample(ISO_CORE, rng.randint(2, 4))
+    extra = rng.sample(ISO_EXTRA, rng.randint(1, 2))
+    brs, k = [], 0
+
+    def passive(n1, n2):
+        nonlocal k
+        k += 1
+        kind = rng.choice(['R', 'R', 'Z', 'G'])
+        if kind == 'R':
+            return {'id': f'R{k}', 'n1': n1, 'n2': n2, 'ctor': 'resistor', 'args': [[rng.choice([1.0, 2.0, 10.0, 47.0, 0.5]), 0.0]]}
+        if kind == 'G':
+            return {'id': f'G{k}', 'n1': n1, 'n2': n2, 'ctor': 'conductor', 'args': [[rng.choice([0.5, 0.1, 2.0]), 0.0]]}
+        return {'id': f'Z{k}', 'n1': n1, 'n2': n2, 'ctor': 'impedance', 'args': [[rng.choice([1.0, 5.0]), rng.choice([-2.0, 3.0])]]}
+    order = list(core)
+    rng.shuffle(order)
+    for i in range(1, len(order)):
+        brs.append(passive(order[i], order[rng.randrange(i)]))
+    for _ in range(rng.randint(0, 2)):
+        if len(core) >= 2:
+            brs.append(passive(*rng.sample(core, 2)))
+    for x in extra:
+        for _ in range(rng.randint(1, 2)):
+            k += 1
+            other = rng.choice(core + [e for e in extra if e != x])
+            n1, n2 = (x, other) if rng.random() < 0.5 else (other, x)
+            if rng.random() < 0.6:
+                brs.append({'id': f'O{k}', 'n1': n1, 'n2': n2, 'ctor': 'open_circuit', 'args': []})
+            else:
+                brs.append({'id': f'I{k}', 'n1': n1, 'n2': n2, 'ctor': 'current_source', 'args': [[0.0, 0.0], [0.0, 0.0]]})
+    rng.shuffle(brs)
+    return {'zero': rng.choice(core + extra + extra), 'branches': brs}, core, extra
+
+
+def examine_isolated(ctx, rng, n):
+    """ports of networks with nodes that are isolated once the sources are deactivated (the deleted-rows path of open_circuit_impedance)"""
+    from CircuitCalculator.Network.NodalAnalysis import node_analysis as na
+    from CircuitCalculator.Network import transformers as trf
+    known = {'zero': 'zz', 'branches': [{'id': 'Z1', 'n1': 'n2', 'n2': '1', 'ctor': 'impedance', 'args': [[5.0, 3.0]]},
+                                        {'id': 'O3', 'n1': 'n3', 'n2': 'n2', 'ctor': 'open_circuit', 'args': []},
+                                        {'id': 'O2', 'n1': '1', 'n2': 'zz', 'ctor': 'open_circuit', 'args': []}]}
+    stream = [(known, ['n2', '1'], ['zz', 'n3'])] + [isolated_node_network(rng) for _ in range(n)]
+    for idx, (case, core, extra) in enumerate(stream):
+        try:
+            net = netgen.impl_network(case)
+        except Exception as e:  # noqa: BLE001
+            ctx.count(f'isolated-stream:network-refused-{type(e).__name__}')
+            continue
+        nodes = core + extra
+        pairs = [(a, b) for a in nodes for b in nodes if a != b]
+        rng.shuffle(pairs)
+        if idx == 0:
+            pairs = [('n2', 'zz'), ('zz', 'n2'), ('n2', '1'), ('1', 'n2')]       # the recorded finding, deliberately, and its finite neighbours
+        for a, b in pairs[:6]:
+            ctx.evaluations += 1
+            want = component_port_impedance(case, a, b)
+            if want is None:
+                ctx.count('isolated-stream:port-undefined(excluded)')
+                continue
+            rep = {'network': case, 'node1': a, 'node2': b}
+            vals = {}
+            for tag, nn, (p, q) in (('', net, (a, b)), (' reversed', net, (b, a))) + tuple(
+                    (f' with reference {g!r}', None, (a, b)) for g in rng.sample(nodes, min(2, len(nodes)))):
+                try:
+                    if nn is None:
+                        nn = trf.switch_ground_node(net, tag.split("'")[1]) if "'" in tag else net
+                    vals[tag] = complex(na.open_circuit_impedance(nn, p, q))
+                except Exception as e:  # noqa: BLE001
+                    ctx.violation(f'C06:open_circuit_impedance-raises-{type(e).__name__}', f'Z({p!r},{q!r}){tag}: {str(e)[:80]}', rep)
+                    vals = None
+                    break
+            if vals is None:
+                continue
+            ctx.count('isolated-stream:ports-compared')
+            for tag, got in vals.items():
+                if isinstance(want, str):
+                    ok = not np.isfinite(abs(got))
+                else:
+                    w = complex(want)
+                    ok = np.isfinite(abs(got)) and abs(got - w) <= 1e-9 * max(abs(w), 1e-3)
+                if not ok:
+                    if isinstance(want, str) and abs(got) > 1e12:
+                        # recorded finding: the two nodes are not connected, the system is singular, and LAPACK does not always notice
+                        ctx.violation('C06:disconnected-port-not-infinite', f'Z({a!r},{b!r}){tag} = {got}: the nodes are not connected (exact: infinite); '
+                                      f'the singular system was solved with rounding noise instead of being recognised', rep)
+                    else:
+                        ctx.violation('C06:wrong-port-impedance:isolated-nodes', f'Z({a!r},{b!r}){tag} = {got}, exact '
+                                      f'{want if isinstance(want, str) else complex(want)} (nodes {extra} hang on open branches / ideal current sources only)', rep)
+                    break
+            else:
+                if not isinstance(want, str):
+                    ctx.nontriv(['isolated', netgen.canon(case), a, b])
+
+
 def wrong_port(case, a, b):
     from CircuitCalculator.Network.NodalAnalysis import node_analysis as na
     nodes = {x['n1'] for x in case['branches']} | {x['n2'] for x in case['branches']}
@@ -261,6 +385,7 @@ def run(ctx):
         for _ in range(120 if quick else 3000):
             examine_network(ctx, netgen.random_network(rng, max_nodes=5, max_branches=8,
                                                        kinds=['R', 'R', 'G', 'Z', 'Y', 'V', 'I', 'LV', 'LI', 'open', 'load']), rng)
+        examine_isolated(ctx, rng, 60 if quick else 1500)
         examine_circuit_sweep(ctx, rng, 20 if quick else 400)
         try:
             import portmodel
